@@ -199,6 +199,13 @@ class Run:
             if model == real:
                 self.stats["corr_agree"] += 1
                 continue
+            if model.startswith("ERR ") and real.startswith("ERR ") and line.split(" ", 1)[0] in READER_OPS:
+                # both reject: which exception class a reader raises on a file it rejects is fixed by no property
+                # (C10 fixes it for the TUCAN parser only, whose operations are not in READER_OPS)
+                self.stats["corr_agree_both_reject"] += 1
+                if len(self.corr_notes) < 20:
+                    self.corr_notes.append({"op": line[:300], "note": f"both reject, with different exception classes: {real} / {model}"})
+                continue
             if mode == "atom-order" and P.normalise_graph_dump(model, True) == P.normalise_graph_dump(real, True):
                 self.stats["corr_agree_observable"] += 1
                 if len(self.corr_notes) < 20:
@@ -211,6 +218,9 @@ class Run:
                 continue
             self.stats["corr_disagree"] += 1
             self.corr_disagreements.append({"op": line, "real": real, "model": model, "meta": meta})
+
+
+READER_OPS = {"V3000", "V2000", "MOLTEXT", "ATTRLINE", "TOKENIZE", "SPLICE"}
 
 
 def load_known_findings():
